@@ -88,7 +88,7 @@ def run(ctx):
     else:
         recs = records(ctx)
     return common.pipeline(
-        ctx, [('SpectrumOpsMC', 'SpectrumOpsMC_C10_%s.cfg' % ctx.tier)], 'Trace_SpectrumOps', recs,
+        ctx, ([('SpectrumOpsMC', 'SpectrumOpsMC_C10_quick.cfg')] if ctx.quick else [('SpectrumOpsMC', 'SpectrumOpsMC_C10_thoroughA.cfg'), ('SpectrumOpsMC', 'SpectrumOpsMC_C10_thoroughB.cfg')]), 'Trace_SpectrumOps', recs,
         nontrivial_of=nontrivial, mutator=mutate,
         rule='random 2-6-D spectra with unequal sample sizes, with/without labels, folded or not, no interior masks; every operation with random '
              'subsets / permutations / merge sets; commutation laws observed as pairs; distinct by (operation, law, shape, folded, labelled, arguments)',
